@@ -37,6 +37,7 @@ Oracles
              A wrong Love number (wrong degree, wrong rigidity, a cached value of another degree) leaves the hull
              unless the degree's own frequency dependence is as large as the error; a different but correct grouping
              (e.g. `n_sig = n_coeff`) does not fire.
+             The quick_tidal_dissipation call must not modify its keyword arguments (inputs_not_mutated).
   solver     |k_RS - k_closed| <= 1e-6 + 50 delta + 3 (|mu~| + rho g R)/K,  delta = |k(rtol=1e-7) - k(rtol=1e-9)|
              (atol = 1e-4 rtol); discarded (counted) if a solve reports success=False or delta > 1e-4.
              Calibration (105 generated cases): delta <= 5e-9, error <= 1.6e-7 and <= 0.015 (|mu~|+rho g R)/K, i.e.
